@@ -2,15 +2,17 @@
 C17 — Scarce capacity is never over-committed in a scheduling pass.
 
 Property theorems only (helper lemmas: `Karp/Proofs/ReservationLemmas.lean`, `Karp/Proofs/DraTrackerLemmas.lean`,
-`Karp/Proofs/DraBudgetLemmas.lean`).
+`Karp/Proofs/DraBudgetLemmas.lean`, `Karp/Proofs/DraCapacityLemmas.lean`).
 Models: `Karp/Model/Reservation.lean` (ReservationManager, the NodeClaim reservation protocol, FinalizeScheduling, the
 reserved-offering branch of addToNewNodeClaim / trySchedule), `Karp/Model/DraTracker.lean` (AllocationTracker),
-`Karp/Model/DraBudget.lean` (the shared-counter budget: InitRemainingCounters / commitCounters / releaseCounters).
+`Karp/Model/DraBudget.lean` (the shared-counter budget: InitRemainingCounters / commitCounters / releaseCounters),
+`Karp/Model/DraCapacity.lean` (consumable capacity: what a share of a multi-allocatable device consumes, the guard).
 Spec:   `Karp/Spec/Reserved.lean` (holder ledger; end state of a pass), evaluated on the real code by the driver.
 -/
 import Karp.Proofs.ReservationLemmas
 import Karp.Proofs.DraTrackerLemmas
 import Karp.Proofs.DraBudgetLemmas
+import Karp.Proofs.DraCapacityLemmas
 import Karp.Proofs.ReservedLedgerLemmas
 import Karp.Spec.Reserved
 
@@ -531,5 +533,102 @@ example : guarded (St.init (deduct ["mig-0", "mig-1"] demoGpu.total demoGpu.devi
       worst (DraBudget.run (St.init (deduct ["mig-0", "mig-1"] demoGpu.total demoGpu.devices)) [.commit "node-a" [("it-x", 20)]]).stored = 60 := by decide
 
 end Counters
+
+/-! ## DRA: consumable capacity of multi-allocatable devices
+
+What an allocation consumes of a multi-allocatable device is fixed by resource.k8s.io/v1: EVERY capacity dimension of the
+device is consumed — a dimension the request has no entry for at `requestPolicy.default`, without a default in full; a
+requested amount is rounded up by the policy; an amount the policy rejects makes the device unusable for the request.
+`Karp.DraCapacity` models `consumable_capacity.go` as it is; `Karp.Spec.DraExclusive.SDim.consumption` states the rules
+independently.  Full statement (NOT proved — the allocator's search is not modelled): "for every population of slices
+and claims the shares `Allocate` publishes, summed per device and dimension (worst case over the instance types of a
+NodeClaim, summed over NodeClaims, plus what is consumed in the cluster), stay within the capacity".  Proved: the
+consumption computed by the code equals the rules for every API-valid policy and every request; every sequence of shares
+admitted by the guard stays within the capacity.  The published shares are judged on the real code by
+`Karp.Spec.DraExclusive.capacityOK` / `shareOK` (ops c17.alloc, c17.drapass). -/
+
+section Capacity
+open Karp.DraCapacity Karp.Spec.DraExclusive
+
+/-- the guard `checkCapacity`: it accepts without booking anything only for a device that is not multi-allocatable or has
+    no capacity dimension at all; otherwise the request must name existing dimensions only, the consumption must be
+    computable, and what is in use plus the consumption must not exceed the capacity -/
+theorem fact_capacity_guard :
+    Karp.Gen.C17Facts.checkCapacityReturns =
+      [("!device.AllowMultipleAllocations", "return nil, true"),
+       ("requestsContainNonExistCapacity(rd.CapacityRequests, device.Capacity)", "return nil, false"),
+       ("err != nil", "return nil, false"),
+       ("consumed == nil", "return nil, true"),
+       ("used.Cmp(total) > 0", "return nil, false"),
+       ("", "return consumed, true")] ∧
+    Karp.Gen.C17Facts.checkCapacityCalls = ["requestsContainNonExistCapacity", "computeConsumedCapacity"] := by decide
+
+/-- `computeConsumedCapacity` computes a consumption for every dimension of the DEVICE (no dimension is skipped), returns
+    nothing only for a device without dimensions, and fails on a policy violation; an absent entry is filled in by
+    `fillEmptyRequest` (default, else the whole capacity) before anything else is looked at -/
+theorem fact_capacity_every_dimension :
+    Karp.Gen.C17Facts.computeConsumedRanges = ["deviceCapacity"] ∧
+    Karp.Gen.C17Facts.computeConsumedGuards = [""] ∧
+    Karp.Gen.C17Facts.computeConsumedReturns.map (·.1) = ["len(deviceCapacity) == 0", "violatesPolicy(c, cap.RequestPolicy)", ""] ∧
+    Karp.Gen.C17Facts.calculateConsumedReturns =
+      [("requestedVal == nil", "return fillEmptyRequest(capacity)"),
+       ("capacity.RequestPolicy == nil", "return requestedVal.DeepCopy()"),
+       ("capacity.RequestPolicy.ValidRange != nil && capacity.RequestPolicy.ValidRange.Min != nil", "return roundUpRange(requestedVal, capacity.RequestPolicy.ValidRange)"),
+       ("capacity.RequestPolicy.ValidValues != nil", "return roundUpValidValues(requestedVal, capacity.RequestPolicy.ValidValues)"),
+       ("", "return requestedVal.DeepCopy()")] ∧
+    Karp.Gen.C17Facts.fillEmptyRequestReturns =
+      [("capacity.RequestPolicy != nil && capacity.RequestPolicy.Default != nil", "return capacity.RequestPolicy.Default.DeepCopy()"),
+       ("", "return capacity.Value.DeepCopy()")] := by decide
+
+/-- for every API-valid request policy and EVERY request (with or without an entry for the dimension) the code computes
+    exactly the consumption the Kubernetes rules give, and fails exactly where the rules say the device cannot be used -/
+theorem C17_capacity_consumption (d : SDim) (h : ValidDim d) (req : Option Int) :
+    consumedDim req (Dim.ofFields d.cap d.default d.values d.range) = d.consumption req :=
+  consumedDim_refines d h req
+
+/-- a request without an entry for a dimension is never free: it consumes the default, without a default the whole
+    capacity -/
+theorem C17_capacity_implicit_share (d : SDim) (h : ValidDim d) :
+    consumedDim none (Dim.ofFields d.cap d.default d.values d.range) = some (d.default.getD d.cap) :=
+  consumedDim_refines d h none
+
+/-- a consumption the code computes is never less than what was asked for -/
+theorem C17_capacity_at_least_requested (d : SDim) (h : ValidDim d) (r c : Int)
+    (hc : consumedDim (some r) (Dim.ofFields d.cap d.default d.values d.range) = some c) : r ≤ c := by
+  rw [consumedDim_refines d h] at hc
+  obtain ⟨dim, cap, pre, default, values, range⟩ := d
+  exact consumption_ge dim cap pre default values range h.sorted (fun mn mx s hr => h.stepPos mn mx s hr) r c hc
+
+/-- (partial: the guard only, one device dimension; the search that offers the shares is not modelled) whatever shares
+    are offered to the guard of `checkCapacity`, in whatever order and however much is in use already, what is booked
+    never exceeds the capacity -/
+theorem C17_capacity_never_overconsumed_partial (total used : Int) (h : used ≤ total) (shares : List Int) :
+    admitAll total used shares ≤ total :=
+  admitAll_le total shares used h
+
+/-- the device of the demonstration: 10 units, default 4, valid range from 1 — API-valid -/
+def demoNic : SDim := { dim := "bandwidth", cap := 10, pre := 0, default := some 4, range := some (1, none, none) }
+
+theorem demoNic_valid : ValidDim demoNic where
+  oneOf := Or.inl rfl
+  sorted := by simp [demoNic]
+  needsDefault := fun _ => ⟨4, rfl⟩
+  defaultValid := by intro dv _ hv; exact absurd rfl hv
+  stepPos := by intro mn mx s hr; simp [demoNic] at hr
+  defaultMax := by intro mn m st dv hr; simp [demoNic] at hr
+
+/-- two claims without a capacity request consume 4 each; a third share of 4 no longer fits: 8 of 10 are booked -/
+example : consumedDim none (Dim.ofFields demoNic.cap demoNic.default demoNic.values demoNic.range) = some 4 ∧
+    admitAll 10 0 [4, 4, 4] = 8 := by decide
+/-- were a request without an entry free of charge, the three claims would all be admitted: 12 of 10 -/
+example : admitAll 10 0 [0, 0, 4] = 4 ∧ (4 : Int) + 4 + 4 > 10 := by decide
+/-- rounding: validValues [2, 4, 8]: a request of 3 consumes 4, a request of 9 cannot be served; range min 2 step 2 max 6:
+    a request of 3 consumes 4, a request of 7 would be rounded to 8 > max and cannot be served -/
+example : consumedDim (some 3) (Dim.ofFields 8 (some 2) [2, 4, 8] none) = some 4 ∧
+    consumedDim (some 9) (Dim.ofFields 8 (some 2) [2, 4, 8] none) = none ∧
+    consumedDim (some 3) (Dim.ofFields 8 (some 2) [] (some (2, some 6, some 2))) = some 4 ∧
+    consumedDim (some 7) (Dim.ofFields 8 (some 2) [] (some (2, some 6, some 2))) = none := by decide
+
+end Capacity
 
 end Karp.C17
